@@ -29,7 +29,7 @@ ASSUMPTIONS = [
     "a dict with all 20 keys plus extra foreign keys is driven only when it is otherwise valid, and then only the "
     "rendering (not acceptance) is judged",
 ]
-REQUIRED = {"all": ["renders_checked", "valid_updates", "rejected_missing_key", "rejected_bad_colour", "rejected_non_dict",
+REQUIRED = {"all": ["salted_objects", "renders_checked", "valid_updates", "rejected_missing_key", "rejected_bad_colour", "rejected_non_dict",
                     "rejected_padded_missing_key", "multi_object_histories", "lengths_10k_plus_1", "render_after_reject", "rejected_empty_mapping",
                     "caller_edits_after_accept", "second_handle_updates", "long_update_histories"]}
 NHIST = {"quick": 1000, "thorough": 8000}
